@@ -127,37 +127,63 @@ def obs_lex(s):
     return rec
 
 
+# audit class E: every function gets the CALLER'S OWN list; a function that edits its argument is an observation
+# (field argmod = names of such functions, clause M:argument_modified), and the damage is carried into the next call
+# on the same object exactly as it would be in the caller's program.
+def _own(rec, name, own, orig):
+    if list(own) != list(orig):
+        rec.setdefault("argmod", [])
+        if name not in rec["argmod"]:
+            rec["argmod"].append(name)
+        own[:] = orig  # restore: one defect, one clause
+
+
 def obs_s2l(parts):
     TU = _tu()
-    return dict(t="s2l", parts=[list(p) for p in parts], sc=[dict(m=m, **_ro(lambda: TU.strings_to_coords(list(parts), m), _items)) for m in MODES])
+    rec = dict(t="s2l", parts=[list(p) for p in parts], argmod=[])
+    own = list(parts)
+    rec["sc"] = []
+    for m in MODES:
+        rec["sc"].append(dict(m=m, **_ro(lambda: TU.strings_to_coords(own, m), _items)))
+        _own(rec, "strings_to_coords", own, parts)
+    return rec
 
 
 def obs_tb(toks, sv, ev):
     TU = _tu()
-    return dict(t="tb", toks=list(toks), sv=sv, ev=ev, calls=[dict(a=a, b=b, u=u, **_ro(lambda: TU.tokens_between(list(toks), sv, ev, a, b, u))) for a, b, u in FLAGS])
+    rec = dict(t="tb", toks=list(toks), sv=sv, ev=ev, calls=[], argmod=[])
+    own = list(toks)
+    for a, b, u in FLAGS:
+        rec["calls"].append(dict(a=a, b=b, u=u, **_ro(lambda: TU.tokens_between(own, sv, ev, a, b, u))))
+        _own(rec, "tokens_between", own, toks)
+    return rec
 
 
 def obs_get(toks):
     TU = _tu()
     t = list(toks)
-    rec = dict(t="get", toks=t)
-    rec["adj"] = _ro(lambda: TU.get_adj_list_tokens(list(t)))
-    rec["org"] = _ro(lambda: TU.get_origin_tokens(list(t)))
-    rec["tgt"] = _ro(lambda: TU.get_target_tokens(list(t)))
-    rec["ctx"] = _ro(lambda: TU.get_context_tokens(list(t)))
-    rec["p0"] = _ro(lambda: TU.get_path_tokens(list(t)))
-    rec["p1"] = _ro(lambda: TU.get_path_tokens(list(t), trim_end=True))
-    r, v = _oc(lambda: TU.get_token_regions(list(t)), lambda x: (_toks(x[0]), _toks(x[1])) if isinstance(x, tuple) and len(x) == 2 else _bad())
+    own = list(toks)
+    rec = dict(t="get", toks=t, argmod=[])
+    for key, name, fn in (("adj", "get_adj_list_tokens", lambda: TU.get_adj_list_tokens(own)), ("org", "get_origin_tokens", lambda: TU.get_origin_tokens(own)),
+                          ("tgt", "get_target_tokens", lambda: TU.get_target_tokens(own)), ("ctx", "get_context_tokens", lambda: TU.get_context_tokens(own)),
+                          ("p0", "get_path_tokens", lambda: TU.get_path_tokens(own)), ("p1", "get_path_tokens", lambda: TU.get_path_tokens(own, trim_end=True))):
+        rec[key] = _ro(fn)
+        _own(rec, name, own, t)
+    r, v = _oc(lambda: TU.get_token_regions(own), lambda x: (_toks(x[0]), _toks(x[1])) if isinstance(x, tuple) and len(x) == 2 else _bad())
+    _own(rec, "get_token_regions", own, t)
     rec["rg"] = dict(r=r, a=v[0] if r == "ok" else [], n=v[1] if r == "ok" else [])
     return rec
 
 
 def obs_eq(a, b, same="-"):
     TU = _tu()
-    rec = dict(t="eq", a=list(a), b=list(b), same=same)
+    rec = dict(t="eq", a=list(a), b=list(b), same=same, argmod=[])
+    oa, ob = list(a), list(b)
     for key, de in (("r0", False), ("r1", True)):
-        r, v = _oc(lambda: TU.equal_except_adj_list_sequence(list(a), list(b), do_except=de), _bool)
+        r, v = _oc(lambda: TU.equal_except_adj_list_sequence(oa, ob, do_except=de), _bool)
         rec[key] = dict(r=r, v=bool(v) if r == "ok" else False)
+        _own(rec, "equal_except_adj_list_sequence", oa, a)
+        _own(rec, "equal_except_adj_list_sequence", ob, b)
     return rec
 
 
@@ -175,14 +201,32 @@ def _pairs(v):
     return [[[_int(x) for x in p] for p in e] for e in a]
 
 
+def _rep_conn(conn, k):
+    """audit class G: the same boolean connection array C-ordered, Fortran-ordered, or as a non-contiguous view into a
+    larger buffer of the caller (the gaps hold the complement)"""
+    conn = np.asarray(conn, dtype=bool)
+    if k % 3 == 1:
+        return np.asfortranarray(conn)
+    if k % 3 == 2:
+        big = np.empty((2, conn.shape[1], 2 * conn.shape[2]), dtype=bool)
+        big[:, :, 0::2] = conn
+        big[:, :, 1::2] = ~conn
+        return big[:, :, 0::2]
+    return np.ascontiguousarray(conn)
+
+
 def obs_adj(job):
     TU = _tu()
     r_, c_, bits, seed = job
-    conn = mz.conn_from_bits(r_, c_, bits)
-    rec = dict(t="adj", R=r_, C=c_, conn=mz.raw(conn), calls=[])
+    conn0 = mz.conn_from_bits(r_, c_, bits)
+    conn = _rep_conn(conn0, seed)
+    rec = dict(t="adj", R=r_, C=c_, conn=mz.raw(conn0), calls=[], argmod=[])
     for k, (d0, d1) in enumerate([(False, False), (True, False), (False, True), (True, True)]):
         np.random.seed((seed * 4 + k) % 2**31)
         rec["calls"].append(dict(d0=d0, d1=d1, **_ro(lambda: TU.connection_list_to_adj_list(conn, shuffle_d0=d0, shuffle_d1=d1), _pairs)))
+        if not np.array_equal(conn, conn0):
+            rec["argmod"].append("connection_list_to_adj_list") if "connection_list_to_adj_list" not in rec["argmod"] else None
+            conn[...] = conn0
     rng = np.random.default_rng([seed, 77])
     edges = []
     for d, i, j in mz.interior_slots(r_, c_):
@@ -191,7 +235,11 @@ def obs_adj(job):
     rng.shuffle(edges)
     rec["edges"] = edges
     if edges:
-        rec["isc"] = _ro(lambda: TU.is_connection(np.array(edges), conn), lambda v: [_bool(x) for x in v])
+        earr = np.array(edges, dtype=np.int8 if (seed // 3) % 2 else np.int64)  # the library's own adjacency lists are int8
+        e0 = earr.copy()
+        rec["isc"] = _ro(lambda: TU.is_connection(earr, conn), lambda v: [_bool(x) for x in v])
+        if not (np.array_equal(earr, e0) and np.array_equal(conn, conn0)):
+            rec["argmod"].append("is_connection")
     else:  # is_connection on an empty edge array is not in the scope (numpy indexing of a 1-d empty array)
         rec["isc"] = dict(r="ok", o=[])
     return rec
@@ -201,8 +249,11 @@ def obs_c2s(items, ck, mode):
     TU = _tu()
     f = TU._coord_to_strings_UT if ck == "UT" else TU._coord_to_strings_indexed
     arg = [x if isinstance(x, str) else tuple(x) for x in items]
-    return dict(t="c2s", items=[dict(k="s", v=[], s=x) if isinstance(x, str) else dict(k="c", v=list(x), s="") for x in items], ck=ck, mode=mode,
-                **_ro(lambda: TU.coords_to_strings(arg, f, when_noncoord=mode)))
+    own = list(arg)
+    rec = dict(t="c2s", items=[dict(k="s", v=[], s=x) if isinstance(x, str) else dict(k="c", v=list(x), s="") for x in items], ck=ck, mode=mode, argmod=[],
+               **_ro(lambda: TU.coords_to_strings(own, f, when_noncoord=mode)))
+    _own(rec, "coords_to_strings", own, arg)
+    return rec
 
 
 def obs_c2t(v):
@@ -448,7 +499,7 @@ def _jobs(seed, thorough):
     J += _chunks("dir", dirs, 600)
     # --- connection_list_to_adj_list / is_connection: every graph of 2x2, 2x3, 3x2, 3x3 sample (thorough: all), random larger
     adj = []
-    for r_, c_ in ((1, 1), (1, 2), (2, 1), (2, 2), (2, 3), (3, 2)):
+    for r_, c_ in ((1, 1), (1, 2), (2, 1), (2, 2), (2, 3), (3, 2), (1, 3), (3, 1), (1, 4), (4, 1)):
         nb = len(mz.interior_slots(r_, c_))
         adj += [(r_, c_, bits, seed + k) for k, bits in enumerate(itertools.product([0, 1], repeat=nb))]
     rng = np.random.default_rng([seed, 33])
@@ -457,6 +508,8 @@ def _jobs(seed, thorough):
     for k in range(400 if thorough else 60):
         r_, c_ = int(rng.integers(2, 9)), int(rng.integers(2, 9))
         adj.append((r_, c_, [int(x) for x in rng.random(len(mz.interior_slots(r_, c_))) < rng.choice([0.2, 0.5, 0.9])], seed + 5000 + k))
+    for k, (r_, c_) in enumerate([(1, 6), (6, 1), (2, 7), (7, 2), (3, 8), (8, 3), (1, 9), (9, 1), (2, 5), (5, 2)] * (4 if thorough else 2)):  # sides differing by >= 2, 1 x N
+        adj.append((r_, c_, [int(x) for x in rng.random(len(mz.interior_slots(r_, c_))) < [0.3, 0.6, 1.0][k % 3]], seed + 7000 + k))
     J += _chunks("adj", adj, 60)
     # --- coords_to_strings / _coord_to_strings_*
     pool = [(0, 1), (10, 2), (3,), (4, 5, 6), "x", "<-->"]
@@ -583,6 +636,9 @@ def _canaries(C):
     mod("lex_mixed", lambda x: x["sc"][0].update(o=[_c([1, 2]), _c([3, 4])]), "M:strings_to_coords")  # a glued coordinate is read
     mod("s2l", lambda x: x["sc"][0].update(o=[_c([1, 2]), _s("x y"), _s("( 3"), _s("4)")]), "M:strings_to_coords")
     # tokens_between
+    mod("tb", lambda x: x.update(argmod=["tokens_between"]), "M:argument_modified")
+    mod("adj", lambda x: x.update(argmod=["is_connection"]), "M:argument_modified")
+    mod("get", lambda x: x.update(argmod=["get_path_tokens"]), "M:argument_modified")
     mod("tb", lambda x: call(x, 0, o=["a", AE]), "M:tokens_between")                   # end delimiter leaks
     mod("tb", lambda x: call(x, 0, o=["a", AE, "b"]), "M:tokens_between")              # last instead of first end delimiter
     mod("tb", lambda x: call(x, 1, r="ok", o=["a"]), "M:tokens_between")               # uniqueness not enforced
